@@ -118,9 +118,13 @@ def make_search_hook(chk, prop):
                   [["save"], ["load", [True] * 5]] + [["deliver"]] * 8]
         variants = [ops + t for t in tails] + variants
         findings = vlib.load_findings(prop)
-        for v in variants[:400]:
+        # each variant also with a backend that refuses everything once the script is used up
+        scripted = [(v, case["script"]) for v in variants[:300]] + \
+                   [(v, list(case["script"]) + [True] * 900) for v in variants[:150]]
+        for v, scr in scripted:
             c = dict(case)
             c["ops"] = v
+            c["script"] = scr
             try:
                 _, trace = core_run.run_case(c)
             except Exception:  # noqa: BLE001
